@@ -19,14 +19,14 @@ package proxy
 //@ pred hole(m proxyIDMapping) = m.sourceShard.ClusterID == 0 && m.sourceShard.ShardID == 0
 
 //@ contract newProxyIDRingBuffer
-//@   shape sig=(capacity int)( *proxyIDRingBuffer);loops=;lits=0
+//@   shape sig=(capacity int)( *proxyIDRingBuffer);loops=;lits=0;fv=
 //@   props C05 C01
 //@   ensures result != nil && fresh(result) && result.wf() && result.size == 0
 //@   ensures len(result.entries) == max(capacity, 1)
 //@   assigns nothing
 
 //@ contract (*proxyIDRingBuffer).ensureCapacity
-//@   shape sig=(b *proxyIDRingBuffer)()();loops=for3;lits=0
+//@   shape sig=(b *proxyIDRingBuffer)()();loops=for3;lits=0;fv=
 //@   props C05 C01
 //@   requires b.wf()
 //@   ensures  @wf: b.wf() && b.size < len(b.entries)
@@ -41,7 +41,7 @@ package proxy
 //@   loop 1 decreases b.size - i
 
 //@ contract (*proxyIDRingBuffer).Append
-//@   shape sig=(b *proxyIDRingBuffer)(proxyID int64,sourceShard history.ClusterShardID,sourceTask int64)();loops=forc;lits=0
+//@   shape sig=(b *proxyIDRingBuffer)(proxyID int64,sourceShard history.ClusterShardID,sourceTask int64)();loops=forc;lits=0;fv=
 //@   props C05 C01
 //@   requires b.wf() && 1 <= proxyID && proxyID < MaxID
 //@   requires b.size > 0 ==> proxyID >= b.startProxyID + int64(b.size)
@@ -60,7 +60,7 @@ package proxy
 //@   loop 1 decreases proxyID - expected
 
 //@ contract (*proxyIDRingBuffer).AggregateUpTo
-//@   shape sig=(b *proxyIDRingBuffer)(watermark int64)( map[history.ClusterShardID]int64, int);loops=for3;lits=0
+//@   shape sig=(b *proxyIDRingBuffer)(watermark int64)( map[history.ClusterShardID]int64, int);loops=for3;lits=0;fv=
 //@   props C05 C01
 //@   requires b.wf()
 //@   ensures  @count: result1 == ite(b.size == 0 || watermark < b.startProxyID, 0, min(watermark - b.startProxyID + 1, int64(b.size)))
@@ -78,7 +78,7 @@ package proxy
 //@   loop 1 decreases count - i
 
 //@ contract (*proxyIDRingBuffer).Discard
-//@   shape sig=(b *proxyIDRingBuffer)(count int)();loops=;lits=0
+//@   shape sig=(b *proxyIDRingBuffer)(count int)();loops=;lits=0;fv=
 //@   props C05 C01
 //@   requires b.wf()
 //@   ensures  @wf: b.wf()
@@ -104,7 +104,7 @@ package proxy
 // lock-free reader can add to an array that a concurrent grow has already copied, and the report is lost.
 //@ guards ReplicationStreamObserver.streamGrowLock: !streamActive
 //@ contract (*ReplicationStreamObserver).ReportStreamValue
-//@   shape sig=(s *ReplicationStreamObserver)(idx int32,value int32)();loops=;lits=0
+//@   shape sig=(s *ReplicationStreamObserver)(idx int32,value int32)();loops=;lits=0;fv=
 //@   props C20 C07
 //@   requires s.wf()
 //@   ensures  @wf: s.wf()
@@ -130,7 +130,10 @@ package proxy
 //@   assigns nothing
 //@ extern quiet history.DecodeClusterShardMD
 //@ extern quiet headers.NewGRPCHeaderGetter
-//@ extern quiet serviceerror.NewInvalidArgument
+//@ extern serviceerror.NewInvalidArgument
+//@   trusted go.temporal.io/api/serviceerror: an error constructor returns a non-nil error
+//@   ensures result != nil
+//@   assigns nothing
 //@ extern quiet log.CapturePanic
 //@ extern quiet ClusterShardIDtoString
 
@@ -139,7 +142,7 @@ package proxy
 //@ pred (s *adminServiceProxyServer) lcmOK() = s.shardCountConfig.Mode == config.ShardCountLCM ==>
 //@     1 <= s.lcmParameters.TargetShardCount && s.lcmParameters.TargetShardCount <= s.lcmParameters.LCM && s.lcmParameters.LCM % s.lcmParameters.TargetShardCount == 0
 //@ contract (*adminServiceProxyServer).StreamWorkflowReplicationMessages
-//@   shape sig=(s *adminServiceProxyServer)(streamServer adminservice.AdminService_StreamWorkflowReplicationMessagesServer)(retError error);loops=;lits=0
+//@   shape sig=(s *adminServiceProxyServer)(streamServer adminservice.AdminService_StreamWorkflowReplicationMessagesServer)(retError error);loops=;lits=0;fv=s.reportStreamValue
 //@   props C20 C07
 //@   requires s.lcmOK()
 //@   firstdefer log.CapturePanic
@@ -152,7 +155,7 @@ package proxy
 // Total in the shard id: for every int32 sourceShardID there is no panic (C20); in 1..LCM the value is the
 // single real shard (s-1) mod c + 1, which lies in 1..c.
 //@ contract mapShardIDUnique
-//@   shape sig=(sourceShardCount int32,targetShardCount int32,sourceShardID int32)( int32);loops=;lits=0
+//@   shape sig=(sourceShardCount int32,targetShardCount int32,sourceShardID int32)( int32);loops=;lits=0;fv=
 //@   props C07 C20
 //@   requires 1 <= targetShardCount && targetShardCount <= sourceShardCount && sourceShardCount % targetShardCount == 0
 //@   ensures  @value: 1 <= sourceShardID && sourceShardID <= sourceShardCount ==> result == (sourceShardID - 1) % targetShardCount + 1
@@ -169,7 +172,7 @@ package proxy
 // LCM branch: whenever the forwarder is created, the outgoing stream metadata names the incoming LCM shard s
 // as the initiator's (client) shard, the remapped real shard as the server shard, and keeps both cluster ids.
 //@ contract handleStream
-//@   shape sig=(streamServer adminservice.AdminService_StreamWorkflowReplicationMessagesServer,targetMetadata metadata.MD,sourceClusterShardID history.ClusterShardID,targetClusterShardID history.ClusterShardID,logger log.Logger,shardCountConfig config.ShardCountConfig,lcmParameters LCMParameters,routingParameters RoutingParameters,adminClient adminservice.AdminServiceClient,adminClientReverse adminservice.AdminServiceClient,shardManager ShardManager,metricLabelValues []string,lifetime context.Context)( error);loops=;lits=0
+//@   shape sig=(streamServer adminservice.AdminService_StreamWorkflowReplicationMessagesServer,targetMetadata metadata.MD,sourceClusterShardID history.ClusterShardID,targetClusterShardID history.ClusterShardID,logger log.Logger,shardCountConfig config.ShardCountConfig,lcmParameters LCMParameters,routingParameters RoutingParameters,adminClient adminservice.AdminServiceClient,adminClientReverse adminservice.AdminServiceClient,shardManager ShardManager,metricLabelValues []string,lifetime context.Context)( error);loops=;lits=0;fv=
 //@   props C07 C20
 //@   assigns contents(targetMetadata)
 //@   requires targetMetadata != nil
@@ -197,7 +200,7 @@ package proxy
 // In LCM mode the peer is told the least common multiple as the history shard count (unless translation is
 // disabled for the request or the upstream call failed).
 //@ contract (*adminServiceProxyServer).DescribeCluster
-//@   shape sig=(s *adminServiceProxyServer)(ctx context.Context,in0 *adminservice.DescribeClusterRequest)( *adminservice.DescribeClusterResponse, error);loops=;lits=0
+//@   shape sig=(s *adminServiceProxyServer)(ctx context.Context,in0 *adminservice.DescribeClusterRequest)( *adminservice.DescribeClusterResponse, error);loops=;lits=0;fv=
 //@   props C07
 //@   ensures @lcm_reported: result1 == nil && result0 != nil && s.shardCountConfig.Mode == config.ShardCountLCM &&
 //@            !common.IsRequestTranslationDisabled(ctx) ==> result0.HistoryShardCount == s.lcmParameters.LCM
@@ -234,7 +237,7 @@ package proxy
 // and search-attribute translators get the configured maps for requests and their inverses for responses; the
 // TLS credentials come from GetServerTLSConfig applied to the given TLS configuration.
 //@ contract makeServerOptions
-//@   shape sig=(c serverConfiguration,tlsConfig encryption.TLSConfig)( []grpc.ServerOption, error);loops=;lits=1
+//@   shape sig=(c serverConfiguration,tlsConfig encryption.TLSConfig)( []grpc.ServerOption, error);loops=;lits=1;fv=
 //@   props C15 C16 C13 C14 C19
 //@   assigns nothing
 //@   panics start-up rejection of an unsupported configuration (several namespaces with search-attribute mappings)
@@ -278,14 +281,14 @@ package proxy
 // Both transports reach buildProxyServer with the same server configuration (so the policy guards the
 // remote-facing server whichever transport it uses).
 //@ contract createServer
-//@   shape sig=(lifetime context.Context,c serverConfiguration)( contextAwareServer, *ReplicationStreamObserver, error);loops=;lits=0
+//@   shape sig=(lifetime context.Context,c serverConfiguration)( contextAwareServer, *ReplicationStreamObserver, error);loops=;lits=0;fv=
 //@   props C15 C19
 //@   assigns nothing
 //@   requires isMuxConn(c.clusterDefinition.ConnectionType) ==> typeis(c.managedClient, "*grpcutil.MultiClientConn")
 //@   callpre createTCPServer: @same_config: $c == c
 //@   callpre buildProxyServer: @same_config: $c == c
 //@ contract createTCPServer
-//@   shape sig=(lifetime context.Context,c serverConfiguration)( contextAwareServer, *ReplicationStreamObserver, error);loops=;lits=0
+//@   shape sig=(lifetime context.Context,c serverConfiguration)( contextAwareServer, *ReplicationStreamObserver, error);loops=;lits=0;fv=
 //@   props C15 C19
 //@   assigns nothing
 //@   callpre buildProxyServer: @same_config: $c == c && $tlsConfig == c.clusterDefinition.TcpServer.TLSConfig
@@ -294,7 +297,7 @@ package proxy
 // service gets the configured shard-count mode and LCM parameters; the workflow service gets the namespace
 // allow-list of the policy (ListNamespaces filtering).
 //@ contract buildProxyServer
-//@   shape sig=(c serverConfiguration,tlsConfig encryption.TLSConfig,observeFn func(int32, int32),lifetime context.Context)( *grpc.Server, error);loops=;lits=0
+//@   shape sig=(c serverConfiguration,tlsConfig encryption.TLSConfig,observeFn func(int32, int32),lifetime context.Context)( *grpc.Server, error);loops=;lits=0;fv=
 //@   props C15 C16 C07 C19
 //@   assigns nothing
 //@   callpre makeServerOptions: @same_config: $c == c && $tlsConfig == tlsConfig
@@ -312,7 +315,7 @@ package proxy
 // server gets the forward translations and the remote shard count; both get LCM(local, remote). A namespace
 // mapping that is not one-to-one aborts construction.
 //@ contract NewClusterConnection
-//@   shape sig=(lifetime context.Context,connConfig config.ClusterConnConfig,logProvider logging.LoggerProvider)( *ClusterConnection, error);loops=;lits=2
+//@   shape sig=(lifetime context.Context,connConfig config.ClusterConnConfig,logProvider logging.LoggerProvider)( *ClusterConnection, error);loops=;lits=2;fv=getLCMParameters,getRoutingParameters
 //@   props C13 C14 C15 C07
 //@   requires lcmSupported(connConfig.ShardCountConfig)
 //@   callpre createServer.1: @inbound_policy: $c.aclPolicy == connConfig.ACLPolicy
@@ -339,7 +342,7 @@ package proxy
 //@   ensures result0 != nil ==> fresh(result0)
 //@   assigns nothing
 //@ contract (*workflowServiceProxyServer).ListNamespaces
-//@   shape sig=(s *workflowServiceProxyServer)(ctx context.Context,req *workflowservice.ListNamespacesRequest)( *workflowservice.ListNamespacesResponse, error);loops=range;lits=0
+//@   shape sig=(s *workflowServiceProxyServer)(ctx context.Context,req *workflowservice.ListNamespacesRequest)( *workflowservice.ListNamespacesResponse, error);loops=range;lits=0;fv=
 //@   props C16
 //@   ensures @only_allowed: s.namespaceAccess != nil && result0 != nil ==> forall k int :: { result0.Namespaces[k] } 0 <= k && k < len(result0.Namespaces) ==>
 //@              auth.allowedIn(s.namespaceAccess, result0.Namespaces[k].NamespaceInfo.Name)
@@ -399,7 +402,7 @@ package proxy
 //@ chanassume RoutedMessage v: msgsOf(v.Resp) != nil ==> (forall a int, c int :: 0 <= a && a < c && c < len(msgsOf(v.Resp).ReplicationTasks) ==> msgsOf(v.Resp).ReplicationTasks[a] != msgsOf(v.Resp).ReplicationTasks[c])
 
 //@ contract (*proxyStreamSender).sendReplicationMessages
-//@   shape sig=(s *proxyStreamSender)(sourceStreamServer adminservice.AdminService_StreamWorkflowReplicationMessagesServer,shutdownChan channel.ShutdownOnce)( error);loops=forc,range,range;lits=1
+//@   shape sig=(s *proxyStreamSender)(sourceStreamServer adminservice.AdminService_StreamWorkflowReplicationMessagesServer,shutdownChan channel.ShutdownOnce)( error);loops=forc,range,range;lits=1;fv=
 //@   props C02 C01 C04
 //@   requires @table_allocated: s.idRing != nil
 //@   wakeup shutdownChan.Channel()
@@ -438,7 +441,7 @@ package proxy
 //@   assigns r.lastSent
 
 //@ contract (*proxyStreamReceiver).sendAck
-//@   shape sig=(r *proxyStreamReceiver)(sourceStreamClient adminservice.AdminService_StreamWorkflowReplicationMessagesClient,shutdownChan channel.ShutdownOnce)( error);loops=forc,range;lits=0
+//@   shape sig=(r *proxyStreamReceiver)(sourceStreamClient adminservice.AdminService_StreamWorkflowReplicationMessagesClient,shutdownChan channel.ShutdownOnce)( error);loops=forc,range;lits=0;fv=
 //@   props C03 C01 C04
 //@   wakeup shutdownChan.Channel()
 //@   requires r.ackByTarget != nil && r.lastSentMin == r.lastSent && (r.lastSentAck != nil ==> ackOf(r.lastSentAck) == r.lastSent)
@@ -465,7 +468,7 @@ package proxy
 // taken only when the ring has nothing at or below w); entries are discarded only after the forwarding loops, and
 // exactly as many as the aggregation covered.
 //@ contract (*proxyStreamSender).recvAck
-//@   shape sig=(s *proxyStreamSender)(sourceStreamServer adminservice.AdminService_StreamWorkflowReplicationMessagesServer,shutdownChan channel.ShutdownOnce)( error);loops=forc,forc,range,range,forc,range;lits=1
+//@   shape sig=(s *proxyStreamSender)(sourceStreamServer adminservice.AdminService_StreamWorkflowReplicationMessagesServer,shutdownChan channel.ShutdownOnce)( error);loops=forc,forc,range,range,forc,range;lits=1;fv=
 //@   props C01 C04 C05:emit
 //@   requires @table_allocated: s.idRing != nil
 //@   wakeup shutdownChan.Channel()
@@ -531,7 +534,7 @@ package proxy
 // msgBatches: number of replication batches (with or without tasks) received on this stream (ghost)
 //@ ghost proxyStreamReceiver.msgBatches int
 //@ contract (*proxyStreamReceiver).recvReplicationMessages
-//@   shape sig=(r *proxyStreamReceiver)(sourceStreamClient adminservice.AdminService_StreamWorkflowReplicationMessagesClient,shutdownChan channel.ShutdownOnce)( error);loops=forc,range,range,range,range,range,forc,range;lits=2
+//@   shape sig=(r *proxyStreamReceiver)(sourceStreamClient adminservice.AdminService_StreamWorkflowReplicationMessagesClient,shutdownChan channel.ShutdownOnce)( error);loops=forc,range,range,range,range,range,forc,range;lits=2;fv=
 //@   props C02 C01 C04 C03
 //@   counts GetRemoteSendChansByCluster, lastExclusiveHighOriginal
 // the clamp bound of sendAck follows the source: EVERY batch raises it to the batch's high watermark, and does so
@@ -594,12 +597,12 @@ package proxy
 
 // Cleanup removes only its own entries: a channel is unregistered only while it is still the registered one.
 //@ contract (*shardManagerImpl).RemoveRemoteSendChan
-//@   shape sig=(sm *shardManagerImpl)(shardID history.ClusterShardID,expectedChan chan RoutedMessage)();loops=;lits=0
+//@   shape sig=(sm *shardManagerImpl)(shardID history.ClusterShardID,expectedChan chan RoutedMessage)();loops=;lits=0;fv=
 //@   props C08 C20:lock
 //@   requires sm.remoteSendChannels != nil
 //@   deletepre remoteSendChannels: @only_own_channel: $key == shardID && $present && sm.remoteSendChannels[$key] == expectedChan
 //@ contract (*shardManagerImpl).RemoveLocalAckChan
-//@   shape sig=(sm *shardManagerImpl)(shardID history.ClusterShardID,expectedChan chan RoutedAck)();loops=;lits=0
+//@   shape sig=(sm *shardManagerImpl)(shardID history.ClusterShardID,expectedChan chan RoutedAck)();loops=;lits=0;fv=
 //@   props C08 C20:lock
 //@   requires sm.localAckChannels != nil
 //@   deletepre localAckChannels: @only_own_channel: $key == shardID && $present && sm.localAckChannels[$key] == expectedChan
@@ -607,7 +610,7 @@ package proxy
 // A shard registration is removed only while it still carries the registration time of the caller's incarnation
 // (every delete in the dynamic extent of UnregisterShard).
 //@ contract (*shardManagerImpl).UnregisterShard
-//@   shape sig=(sm *shardManagerImpl)(clientShardID history.ClusterShardID,expectedRegisteredAt time.Time)();loops=;lits=1
+//@   shape sig=(sm *shardManagerImpl)(clientShardID history.ClusterShardID,expectedRegisteredAt time.Time)();loops=;lits=1;fv=sm.onLocalShardChange
 //@   props C08 C09 C20:lock
 //@   assigns contents(sm.localShards)
 //@   requires sm.localShards != nil
@@ -621,7 +624,7 @@ package proxy
 //@   ensures sd.evicted
 //@   assigns contents(sm.localShards), sd.evicted
 //@ contract (*shardDelegate).NotifyMsg
-//@   shape sig=(sd *shardDelegate)(data []byte)();loops=;lits=0
+//@   shape sig=(sd *shardDelegate)(data []byte)();loops=;lits=0;fv=sd.manager.onRemoteShardChange
 //@   props C09
 //@   requires !sd.evicted
 //@   ensures @newer_claim_evicts: (sd.manager != nil && sd.manager.onRemoteShardChange != nil && err == nil && msg.Type == "register" && ok && localShard.Created < msg.Timestamp) ==> sd.evicted
@@ -631,7 +634,7 @@ package proxy
 
 // C09: an instance that left owns nothing.
 //@ contract (*shardEventDelegate).NotifyLeave
-//@   shape sig=(sed *shardEventDelegate)(node *memberlist.Node)();loops=;lits=0
+//@   shape sig=(sed *shardEventDelegate)(node *memberlist.Node)();loops=;lits=0;fv=
 //@   props C09
 //@   requires node != nil && (sed.manager != nil ==> sed.manager.remoteNodeStates != nil)
 //@   ensures @forgotten: sed.manager != nil ==> !(node.Name in sed.manager.remoteNodeStates)
@@ -662,27 +665,27 @@ package proxy
 //@ pred goodResp(r *adminservice.StreamWorkflowReplicationMessagesResponse) = r != nil &&
 //@        (msgsOf(r) != nil ==> (forall k int :: { msgsOf(r).ReplicationTasks[k] } 0 <= k && k < len(msgsOf(r).ReplicationTasks) ==> msgsOf(r).ReplicationTasks[k] != nil))
 //@ contract (*intraProxyStreamSender).sendReplicationMessages
-//@   shape sig=(s *intraProxyStreamSender)(resp *adminservice.StreamWorkflowReplicationMessagesResponse)( error);loops=range;lits=0
+//@   shape sig=(s *intraProxyStreamSender)(resp *adminservice.StreamWorkflowReplicationMessagesResponse)( error);loops=range;lits=0;fv=
 //@   props C09
 //@   requires goodResp(resp)
 //@   ensures @nil_iff_sent_once: (result == nil ==> resp.sentOn == old(resp.sentOn) + 1) && (result != nil ==> resp.sentOn == old(resp.sentOn))
 //@   assigns resp.sentOn
 //@   loop 1 invariant fresh(ids)
 //@ contract (*intraProxyStreamReceiver).sendAck
-//@   shape sig=(r *intraProxyStreamReceiver)(req *adminservice.StreamWorkflowReplicationMessagesRequest)( error);loops=;lits=0
+//@   shape sig=(r *intraProxyStreamReceiver)(req *adminservice.StreamWorkflowReplicationMessagesRequest)( error);loops=;lits=0;fv=
 //@   props C09
 //@   requires req != nil && r.streamClient != nil
 //@   ensures @nil_iff_sent_once: (result == nil ==> req.sentOn == old(req.sentOn) + 1) && (result != nil ==> req.sentOn == old(req.sentOn))
 //@   assigns req.sentOn
 //@ contract (*intraProxyManager).sendReplicationMessages
-//@   shape sig=(m *intraProxyManager)(ctx context.Context,peerNodeName string,targetShard history.ClusterShardID,sourceShard history.ClusterShardID,resp *adminservice.StreamWorkflowReplicationMessagesResponse)( error);loops=for0;lits=0
+//@   shape sig=(m *intraProxyManager)(ctx context.Context,peerNodeName string,targetShard history.ClusterShardID,sourceShard history.ClusterShardID,resp *adminservice.StreamWorkflowReplicationMessagesResponse)( error);loops=for0;lits=0;fv=
 //@   props C09 C20:lock
 //@   requires goodResp(resp)
 //@   ensures @nil_iff_sent_once: (result == nil ==> resp.sentOn == old(resp.sentOn) + 1) && (result != nil ==> resp.sentOn == old(resp.sentOn))
 //@   assigns *, resp.sentOn
 //@   loop 1 invariant resp.sentOn == old(resp.sentOn) && goodResp(resp) && backoff >= 0 && backoff <= 400000000
 //@ contract (*intraProxyManager).sendAck
-//@   shape sig=(m *intraProxyManager)(ctx context.Context,peerNodeName string,clientShard history.ClusterShardID,serverShard history.ClusterShardID,req *adminservice.StreamWorkflowReplicationMessagesRequest)( error);loops=;lits=0
+//@   shape sig=(m *intraProxyManager)(ctx context.Context,peerNodeName string,clientShard history.ClusterShardID,serverShard history.ClusterShardID,req *adminservice.StreamWorkflowReplicationMessagesRequest)( error);loops=;lits=0;fv=
 //@   props C09 C20:lock
 //@   requires req != nil
 //@   ensures @nil_iff_sent_once: (result == nil ==> req.sentOn == old(req.sentOn) + 1) && (result != nil ==> req.sentOn == old(req.sentOn))
@@ -697,14 +700,14 @@ package proxy
 //@   assigns nothing
 
 //@ contract (*shardManagerImpl).DeliverMessagesToShardOwner
-//@   shape sig=(sm *shardManagerImpl)(targetShard history.ClusterShardID,routedMsg *RoutedMessage,shutdownChan channel.ShutdownOnce,logger log.Logger)( bool);loops=;lits=2
+//@   shape sig=(sm *shardManagerImpl)(targetShard history.ClusterShardID,routedMsg *RoutedMessage,shutdownChan channel.ShutdownOnce,logger log.Logger)( bool);loops=;lits=2;fv=
 //@   props C09 C08 C04 C02 C20:lock
 //@   requires routedMsg != nil && goodMsg(deref(routedMsg))
 //@   ensures @exactly_once_iff_true: result <==> ($sends + (old(routedMsg.Resp).sentOn - old(routedMsg.Resp.sentOn)) == 1)
 //@   ensures @never_twice: $sends + (old(routedMsg.Resp).sentOn - old(routedMsg.Resp.sentOn)) <= 1
 //@   callpre sendReplicationMessages: @local_first: $sends == 0
 //@ contract (*shardManagerImpl).DeliverAckToShardOwner
-//@   shape sig=(sm *shardManagerImpl)(sourceShard history.ClusterShardID,routedAck *RoutedAck,shutdownChan channel.ShutdownOnce,logger log.Logger,ack int64,allowForward bool)( bool);loops=;lits=2
+//@   shape sig=(sm *shardManagerImpl)(sourceShard history.ClusterShardID,routedAck *RoutedAck,shutdownChan channel.ShutdownOnce,logger log.Logger,ack int64,allowForward bool)( bool);loops=;lits=2;fv=
 //@   props C09 C08 C04 C01 C20:lock
 //@   requires routedAck != nil && routedAck.Req != nil
 // constructor invariant: acknowledgements are routed only in routing mode, where a memberlist configuration comes with an intra-proxy manager
@@ -744,7 +747,7 @@ package proxy
 // has recorded - a batch without tasks, so nothing can be pending below it - and never a watermark derived from
 // anything else (the high watermark of a task batch still being handed off, say).
 //@ contract (*proxyStreamReceiver).sendPendingWatermarkToShard
-//@   shape sig=(r *proxyStreamReceiver)(targetShardID history.ClusterShardID)();loops=;lits=2
+//@   shape sig=(r *proxyStreamReceiver)(targetShardID history.ClusterShardID)();loops=;lits=2;fv=
 //@   props C08 C01 C04
 //@   requires !(r.sourceShardID.ClusterID == 0 && r.sourceShardID.ShardID == 0)
 //@   sendpre sendChan: @only_a_recorded_watermark: old(r.lastWatermark) != nil && $value.Resp != nil && msgsOf($value.Resp) != nil &&
@@ -752,7 +755,7 @@ package proxy
 //@   callpre DeliverMessagesToShardOwner: @only_a_recorded_watermark: old(r.lastWatermark) != nil && $1 != nil && $1.Resp != nil && msgsOf($1.Resp) != nil &&
 //@        msgsOf($1.Resp).ExclusiveHighWatermark == old(r.lastWatermark.ExclusiveHighWatermark) && len(msgsOf($1.Resp).ReplicationTasks) == 0
 //@ contract (*intraProxyStreamReceiver).sendPendingWatermarkToShard
-//@   shape sig=(r *intraProxyStreamReceiver)(targetShardID history.ClusterShardID)();loops=;lits=2
+//@   shape sig=(r *intraProxyStreamReceiver)(targetShardID history.ClusterShardID)();loops=;lits=2;fv=
 //@   props C08
 //@   requires !(r.sourceShardID.ClusterID == 0 && r.sourceShardID.ShardID == 0)
 
@@ -802,7 +805,7 @@ package proxy
 // triggered by the announcement reaches the new channel), and the deferred clean-up names exactly this
 // incarnation's channel and registration time.
 //@ contract (*proxyStreamSender).Run
-//@   shape sig=(s *proxyStreamSender)(sourceStreamServer adminservice.AdminService_StreamWorkflowReplicationMessagesServer,shutdownChan channel.ShutdownOnce)();loops=;lits=2
+//@   shape sig=(s *proxyStreamSender)(sourceStreamServer adminservice.AdminService_StreamWorkflowReplicationMessagesServer,shutdownChan channel.ShutdownOnce)();loops=;lits=2;fv=
 //@   props C08 C04
 //@   checkgo
 //@   requires s.shardManager != nil
@@ -819,7 +822,7 @@ package proxy
 // aggregation state is reset before the workers start; the deferred clean-up names this incarnation, and the
 // registry removes an entry only while it is still this incarnation's (defect D8, fixed).
 //@ contract (*proxyStreamReceiver).Run
-//@   shape sig=(r *proxyStreamReceiver)(shutdownChan channel.ShutdownOnce)();loops=;lits=5
+//@   shape sig=(r *proxyStreamReceiver)(shutdownChan channel.ShutdownOnce)();loops=;lits=5;fv=cancel
 //@   props C08 C04 C03
 //@   requires !(r.sourceShardID.ClusterID == 0 && r.sourceShardID.ShardID == 0)
 //@   requires r.lastSent == 0 && r.lastSentAck == nil
@@ -833,7 +836,7 @@ package proxy
 // C04 (i): both halves of a routing stream get the SAME shutdown latch (the spawned literals are executed on a
 // forked state, so the two Run calls are checked against the latch variable of streamRouting itself).
 //@ contract streamRouting
-//@   shape sig=(logger log.Logger,streamServer adminservice.AdminService_StreamWorkflowReplicationMessagesServer,sourceShardID history.ClusterShardID,targetShardID history.ClusterShardID,shardManager ShardManager,adminClientReverse adminservice.AdminServiceClient,routingParameters RoutingParameters,lifetime context.Context)( error);loops=;lits=3
+//@   shape sig=(logger log.Logger,streamServer adminservice.AdminService_StreamWorkflowReplicationMessagesServer,sourceShardID history.ClusterShardID,targetShardID history.ClusterShardID,shardManager ShardManager,adminClientReverse adminservice.AdminServiceClient,routingParameters RoutingParameters,lifetime context.Context)( error);loops=;lits=3;fv=
 //@   props C04
 //@   checkgo
 //@   requires shardManager != nil
@@ -842,13 +845,13 @@ package proxy
 // C04 (ii): every worker trips the latch on every exit path. The requires clauses of the spawned literals are
 // proof obligations at the two go statements of Run.
 //@ contract (*proxyStreamReceiver).Run$2
-//@   shape sig=()();loops=;lits=1
+//@   shape sig=()();loops=;lits=1;fv=
 //@   props C04
 //@   requires r != nil
 //@   requires !(r.sourceShardID.ClusterID == 0 && r.sourceShardID.ShardID == 0) && r.ackByTarget != nil && allocated(r.ackByTarget)
 //@   ensures @latch_tripped: shutdownChan.tripped
 //@ contract (*proxyStreamReceiver).Run$4
-//@   shape sig=()();loops=;lits=1
+//@   shape sig=()();loops=;lits=1;fv=
 //@   props C04
 //@   requires r != nil
 //@   requires r.ackByTarget != nil && r.lastSentMin == r.lastSent && (r.lastSentAck != nil ==> ackOf(r.lastSentAck) == r.lastSent)
@@ -860,17 +863,17 @@ package proxy
 // shard's entry (the assigns clause frames the map; other keys are covered by the map-store model).
 // ---------------------------------------------------------------------------------------------
 //@ contract (*shardManagerImpl).SetRemoteSendChan
-//@   shape sig=(sm *shardManagerImpl)(shardID history.ClusterShardID,sendChan chan RoutedMessage)();loops=;lits=0
+//@   shape sig=(sm *shardManagerImpl)(shardID history.ClusterShardID,sendChan chan RoutedMessage)();loops=;lits=0;fv=
 //@   props C08 C20:lock
 //@   requires sm.remoteSendChannels != nil
 //@   ensures @newest_registered: shardID in sm.remoteSendChannels && sm.remoteSendChannels[shardID] == sendChan
 //@ contract (*shardManagerImpl).SetLocalAckChan
-//@   shape sig=(sm *shardManagerImpl)(shardID history.ClusterShardID,ackChan chan RoutedAck)();loops=;lits=0
+//@   shape sig=(sm *shardManagerImpl)(shardID history.ClusterShardID,ackChan chan RoutedAck)();loops=;lits=0;fv=
 //@   props C08 C20:lock
 //@   requires sm.localAckChannels != nil
 //@   ensures @newest_registered: shardID in sm.localAckChannels && sm.localAckChannels[shardID] == ackChan
 //@ contract (*shardManagerImpl).RegisterActiveReceiver
-//@   shape sig=(sm *shardManagerImpl)(sourceShardID history.ClusterShardID,receiver ActiveReceiver)();loops=;lits=0
+//@   shape sig=(sm *shardManagerImpl)(sourceShardID history.ClusterShardID,receiver ActiveReceiver)();loops=;lits=0;fv=
 //@   props C08 C20:lock
 //@   requires sm.activeReceivers != nil
 //@   ensures @newest_registered: sourceShardID in sm.activeReceivers && sm.activeReceivers[sourceShardID] == receiver
@@ -883,7 +886,7 @@ package proxy
 //@   ensures sm.lastNow == result
 //@   assigns sm.lastNow
 //@ contract (*shardManagerImpl).addLocalShard
-//@   shape sig=(sm *shardManagerImpl)(shard history.ClusterShardID)( time.Time);loops=;lits=0
+//@   shape sig=(sm *shardManagerImpl)(shard history.ClusterShardID)( time.Time);loops=;lits=0;fv=
 //@   props C08 C09 C20:lock
 //@   requires sm.localShards != nil
 //@   ensures @token_is_this_clock_reading: result == sm.lastNow
@@ -891,7 +894,7 @@ package proxy
 // The predecessor is evicted: after the call no cancel function and no acknowledgement channel of an older
 // receiver incarnation is registered for the shard.
 //@ contract (*shardManagerImpl).TerminatePreviousLocalReceiver
-//@   shape sig=(sm *shardManagerImpl)(shardID history.ClusterShardID,logger log.Logger)();loops=;lits=0
+//@   shape sig=(sm *shardManagerImpl)(shardID history.ClusterShardID,logger log.Logger)();loops=;lits=0;fv=prevCancelFunc
 //@   props C08 C04 C20:lock
 //@   requires sm.localReceiverCancelFuncs != nil && sm.localAckChannels != nil && logger != nil
 //@   ensures @predecessor_evicted: !(shardID in sm.localReceiverCancelFuncs)
@@ -900,7 +903,7 @@ package proxy
 // of the broadcast, so two instances could each take the other's announcement for the newer claim and both give
 // the shard up).
 //@ contract (*shardManagerImpl).RegisterShard
-//@   shape sig=(sm *shardManagerImpl)(clientShardID history.ClusterShardID)( time.Time);loops=;lits=1
+//@   shape sig=(sm *shardManagerImpl)(clientShardID history.ClusterShardID)( time.Time);loops=;lits=1;fv=sm.onLocalShardChange
 //@   props C09
 //@   requires sm.localShards != nil
 //@   callpre broadcastShardChange: @claim_time_announced: $msgType == "register" && $shard == clientShardID && $at == registeredAt
@@ -911,7 +914,7 @@ package proxy
 
 // C09: a full-state merge records exactly the decoded state under the sender's node name.
 //@ contract (*shardDelegate).MergeRemoteState
-//@   shape sig=(sd *shardDelegate)(buf []byte,join bool)();loops=;lits=0
+//@   shape sig=(sd *shardDelegate)(buf []byte,join bool)();loops=;lits=0;fv=
 //@   props C09
 //@   requires sd.manager != nil ==> sd.manager.remoteNodeStates != nil
 //@   ensures @merged: err == nil && sd.manager != nil ==> state.NodeName in sd.manager.remoteNodeStates && sd.manager.remoteNodeStates[state.NodeName] == state
@@ -958,7 +961,7 @@ package proxy
 // On EVERY exit path - EOF, error, send failure, unknown message kind, shutdown - the latch is tripped and the
 // wait group is released exactly once.
 //@ contract (*StreamForwarder).forwardReplicationMessages
-//@   shape sig=(f *StreamForwarder)(wg *sync.WaitGroup)();loops=for0,range;lits=1
+//@   shape sig=(f *StreamForwarder)(wg *sync.WaitGroup)();loops=for0,range;lits=1;fv=
 //@   props C06
 //@   wakeup f.shutdownChan.Channel()
 //@   requires f.shutdownChan != nil && f.sourceStreamClient != nil && f.targetStreamServer != nil && wg != nil
@@ -972,7 +975,7 @@ package proxy
 
 // Initiator -> source: the same for sync-state messages.
 //@ contract (*StreamForwarder).forwardAcks
-//@   shape sig=(f *StreamForwarder)(wg *sync.WaitGroup)();loops=for0;lits=2
+//@   shape sig=(f *StreamForwarder)(wg *sync.WaitGroup)();loops=for0;lits=2;fv=
 //@   props C06
 //@   wakeup f.shutdownChan.Channel()
 //@   requires f.shutdownChan != nil && f.sourceStreamClient != nil && f.targetStreamServer != nil && wg != nil
@@ -994,7 +997,7 @@ package proxy
 //@ extern quiet (prometheus.Counter).Inc
 //@ extern quiet (prometheus.Observer).Observe
 //@ contract (*StreamForwarder).Run
-//@   shape sig=(f *StreamForwarder)()( error);loops=;lits=0
+//@   shape sig=(f *StreamForwarder)()( error);loops=;lits=0;fv=cancel
 //@   props C06
 //@   checkgo
 //@   requires f.adminClient != nil && f.targetStreamServer != nil
@@ -1005,13 +1008,13 @@ package proxy
 //@   trusted gRPC stream receive: no effect on the proxy's own state
 //@   assigns nothing
 //@ contract startListener
-//@   shape sig=(receiver recvable[T],shutdownChan channel.ShutdownOnce)( chan ValueWithError[T]);loops=forc;lits=1
+//@   shape sig=(receiver recvable[T],shutdownChan channel.ShutdownOnce)( chan ValueWithError[T]);loops=forc;lits=1;fv=
 //@   props C06
 //@   requires shutdownChan != nil && receiver != nil
 //@   ensures result != nil
 //@   assigns nothing
 //@ contract startListener$1
-//@   shape sig=()();loops=forc;lits=0
+//@   shape sig=()();loops=forc;lits=0;fv=
 //@   props C06
 //@   wakeup shutdownChan.Channel()
 //@   requires shutdownChan != nil && receiver != nil && open(targetStreamServerData)
@@ -1026,11 +1029,11 @@ package proxy
 //@ guards intraProxyManager.streamsMu: *peers
 //@   lockinv forall p string :: { p in self.peers } p in self.peers ==> self.peers[p] != nil
 //@ contract (*intraProxyManager).UnregisterSender
-//@   shape sig=(m *intraProxyManager)(peerNodeName string,targetShard history.ClusterShardID,sourceShard history.ClusterShardID,sender *intraProxyStreamSender)();loops=;lits=0
+//@   shape sig=(m *intraProxyManager)(peerNodeName string,targetShard history.ClusterShardID,sourceShard history.ClusterShardID,sender *intraProxyStreamSender)();loops=;lits=0;fv=
 //@   props C08 C20:lock
 //@   deletepre senders: @only_own_sender: !$present || $map[$key] == sender
 //@ contract (*intraProxyManager).RegisterSender
-//@   shape sig=(m *intraProxyManager)(peerNodeName string,targetShard history.ClusterShardID,sourceShard history.ClusterShardID,sender *intraProxyStreamSender)();loops=;lits=0
+//@   shape sig=(m *intraProxyManager)(peerNodeName string,targetShard history.ClusterShardID,sourceShard history.ClusterShardID,sender *intraProxyStreamSender)();loops=;lits=0;fv=
 //@   props C08 C20:lock
 //@   requires m.peers != nil && m.loggers != nil
 //@   ensures @newest_registered: targetShard.ClusterID != sourceShard.ClusterID ==> peerNodeName in m.peers && m.peers[peerNodeName] != nil
@@ -1053,7 +1056,7 @@ package proxy
 //@ extern (*intraProxyStreamSender).sendReplicationMessages@(*intraProxyStreamSender).Run(s2, resp)
 //@   assigns nothing
 //@ contract (*intraProxyStreamSender).Run
-//@   shape sig=(s *intraProxyStreamSender)(sourceStreamServer adminservice.AdminService_StreamWorkflowReplicationMessagesServer,shutdownChan channel.ShutdownOnce)( error);loops=;lits=0
+//@   shape sig=(s *intraProxyStreamSender)(sourceStreamServer adminservice.AdminService_StreamWorkflowReplicationMessagesServer,shutdownChan channel.ShutdownOnce)( error);loops=;lits=0;fv=
 //@   props C08
 //@   requires s.shardManager != nil && sourceStreamServer != nil
 //@   callpre UnregisterSender: @own_sender: $sender == s && $peerNodeName == old(s.peerNodeName) && $targetShard == old(s.targetShardID) && $sourceShard == old(s.sourceShardID)
@@ -1063,18 +1066,18 @@ package proxy
 // unconditional); evicting a predecessor (TerminatePreviousLocalReceiver) stays unconditional by design.
 //@ guards shardManagerImpl.localReceiverCancelFuncsMu: *localReceiverCancelOwner
 //@ contract (*shardManagerImpl).UnregisterActiveReceiver
-//@   shape sig=(sm *shardManagerImpl)(sourceShardID history.ClusterShardID,receiver ActiveReceiver)();loops=;lits=0
+//@   shape sig=(sm *shardManagerImpl)(sourceShardID history.ClusterShardID,receiver ActiveReceiver)();loops=;lits=0;fv=
 //@   props C08 C20:lock
 //@   deletepre activeReceivers: @only_own_entry: $key == sourceShardID && $present && $map[$key] == receiver
 //@ contract (*shardManagerImpl).RemoveLocalReceiverCancelFunc
-//@   shape sig=(sm *shardManagerImpl)(shardID history.ClusterShardID,owner ActiveReceiver)();loops=;lits=0
+//@   shape sig=(sm *shardManagerImpl)(shardID history.ClusterShardID,owner ActiveReceiver)();loops=;lits=0;fv=
 //@   props C08 C20:lock
 // (the two maps have different Go types and therefore cannot be the same object; the untyped heap model needs to be told)
 //@   requires sm.localReceiverCancelFuncs != sm.localReceiverCancelOwner
 //@   deletepre localReceiverCancelFuncs: @only_own_entry: $key == shardID && shardID in sm.localReceiverCancelOwner && sm.localReceiverCancelOwner[shardID] == owner
 //@   deletepre localReceiverCancelOwner: @only_own_entry: $key == shardID && $present && $map[$key] == owner
 //@ contract (*shardManagerImpl).SetLocalReceiverCancelFunc
-//@   shape sig=(sm *shardManagerImpl)(shardID history.ClusterShardID,cancelFunc context.CancelFunc,owner ActiveReceiver)();loops=;lits=0
+//@   shape sig=(sm *shardManagerImpl)(shardID history.ClusterShardID,cancelFunc context.CancelFunc,owner ActiveReceiver)();loops=;lits=0;fv=
 //@   props C08 C20:lock
 //@   requires sm.localReceiverCancelFuncs != nil && sm.localReceiverCancelOwner != nil
 //@   ensures @newest_registered: shardID in sm.localReceiverCancelOwner && sm.localReceiverCancelOwner[shardID] == owner && shardID in sm.localReceiverCancelFuncs
@@ -1093,7 +1096,7 @@ package proxy
 //@   ensures forall k peerStreamKey :: { k in ps.senders } ps.senders != nil && k in ps.senders ==> old(k in ps.senders) && ps.senders[k] == old(ps.senders[k])
 //@   assigns all(peerState.senders), all(peerState.receivers), all(peerState.recvShutdown), contents(ps.senders), contents(ps.receivers), contents(ps.recvShutdown)
 //@ contract (*intraProxyManager).ReconcilePeerStreams
-//@   shape sig=(m *intraProxyManager)(peerNodeName string)();loops=range,range,range,range,range,range,range,range,range,range,range,range;lits=1
+//@   shape sig=(m *intraProxyManager)(peerNodeName string)();loops=range,range,range,range,range,range,range,range,range,range,range,range;lits=1;fv=check
 //@   props C09
 //@   requires m.shardManager != nil && m.loggers != nil
 //@   callpre EnsureReceiverForPeerShard: @only_desired: key in desiredReceivers && $peerNodeName == desiredReceivers[key] && $targetShard == key.targetShard && $sourceShard == key.sourceShard
@@ -1113,7 +1116,7 @@ package proxy
 //@ extern (ShardManager).GetRemoteSendChan@(*intraProxyStreamReceiver).recvReplicationMessages
 //@   assigns nothing
 //@ contract (*intraProxyStreamReceiver).recvReplicationMessages
-//@   shape sig=(r *intraProxyStreamReceiver)()( error);loops=forc,range,forc;lits=2
+//@   shape sig=(r *intraProxyStreamReceiver)()( error);loops=forc,range,forc;lits=2;fv=
 //@   props C08
 //@   wakeup shutdown.Channel()
 //@   requires r.shutdown != nil && r.streamClient != nil && !(r.sourceShardID.ClusterID == 0 && r.sourceShardID.ShardID == 0)
@@ -1129,14 +1132,14 @@ package proxy
 //@   ensures result1 == nil ==> result0 != nil && result0.receivers != nil && result0.recvShutdown != nil
 //@   assigns contents(m2.peers)
 //@ contract (*intraProxyManager).ensureStream
-//@   shape sig=(m *intraProxyManager)(ctx context.Context,logger log.Logger,peerNodeName string,targetShard history.ClusterShardID,sourceShard history.ClusterShardID)( error);loops=;lits=1
+//@   shape sig=(m *intraProxyManager)(ctx context.Context,logger log.Logger,peerNodeName string,targetShard history.ClusterShardID,sourceShard history.ClusterShardID)( error);loops=;lits=1;fv=
 //@   props C08 C09
 //@   requires m.loggers != nil
 //@   storepre receivers: @none_registered_for_the_pair: !$present || $map[$key] == nil
 //@ extern (*intraProxyStreamReceiver).Run@(*intraProxyManager).ensureStream$1(r, ctx, sm, conn)
 //@   assigns *
 //@ contract (*intraProxyManager).ensureStream$1
-//@   shape sig=()();loops=;lits=0
+//@   shape sig=()();loops=;lits=0;fv=
 //@   props C08 C09
 //@   requires ps != nil && recv != nil && m != nil
 //@   deletepre receivers: @only_own_receiver: $map[$key] == recv
